@@ -139,6 +139,45 @@ class ApplyBody(object):
                         amt = canon(sl.leaves_of_operand(bo))
                         self.stat_writes.setdefault(w.bb, []).append((w.field[2], sign, amt))
 
+        # statistic updates delegated to a straight-line helper of the state (`self.blob_added(size)`): inlined
+        for site in b.calls():
+            tgt = self.prog.local_target(site)
+            if tgt is None or site.bb in self.roles:
+                continue
+            ws = [w for w in self.ctx.world.field_writes if w.body.path == tgt.path]
+            if not ws:
+                continue
+            if any(e[0] == "CONT" and e[3] for e in self.ctx.may.all_events(tgt.path)):
+                continue
+            stat_ws = []
+            for w in ws:
+                ft = self.ctx.world._field_ty(w.field)
+                if ft is not None and self.prog.ty_str(ft) == "u64" and \
+                        w.field[1] != self.prog.adts[self.A["STATE"]]["path"]:
+                    stat_ws.append(w)
+            if not stat_ws:
+                continue
+            if any(tgt.blocks[x]["term"]["k"] == "switch" for x in tgt.normal_blocks()):
+                self.problems.append("statistics are updated by %s under a condition of its own (not followed)" % tgt.path)
+                continue
+            tsl = Slicer(self.ctx.world, tgt, follow_local=False)
+            for w in stat_ws:
+                lv = tsl.leaves_of_rv(w.rv, w.bb) if w.rv["k"] in ("use", "binop") else set()
+                for l in lv:
+                    if l[0] != "binop":
+                        continue
+                    ops_here = [(None, w.rv["op"], w.rv["a"], w.rv["b"])] if w.rv["k"] == "binop" else binops_in(tgt, l[2])
+                    for (lhs, op, a, bo) in ops_here:
+                        sign = "+" if op.startswith("Add") else ("-" if op.startswith("Sub") else None)
+                        if sign is None:
+                            continue
+                        amt = set()
+                        for x in tsl.leaves_of_operand(bo):
+                            if x[0] == "param" and x[1] - 1 < len(site.term["args"]):
+                                amt |= sl.leaves_of_operand(site.term["args"][x[1] - 1], x[2])
+                            else:
+                                amt.add(x)
+                        self.stat_writes.setdefault(site.bb, []).append((w.field[2], sign, canon(amt)))
         # unit increments of plain local counters (a count the body may report to its caller)
         from .prov import root_local
         self.count_adds = {}
